@@ -552,9 +552,15 @@ class Exec:
         node = self.node
         qi = self.qidx
         self.qidx = qi + 1
+        cid = cond.get_id()
         if qi < len(node[0]):
-            self.stats['cached'] += 1
-            return node[0][qi]
+            hit = node[0][qi]
+            if hit[1] == cid:       # z3 terms are hash-consed: same id = same formula (the term is kept alive in the node)
+                self.stats['cached'] += 1
+                return hit[0]
+            # the query sequence differs from the first visit of this prefix: do not trust the position, ask the solver
+            self.stats['cache_mismatch'] = self.stats.get('cache_mismatch', 0) + 1
+            qi = None
         self.stats['queries'] += 1
         t = time.time()
         self.solver.push()
@@ -569,7 +575,8 @@ class Exec:
             from . import crosscheck
             crosscheck.export_query(self.export_dir, self.stats['queries'], self.solver.assertions(), cond, r == z3.sat)
             self.stats['exported'] = self.stats.get('exported', 0) + 1
-        node[0].append(r == z3.sat)
+        if qi is not None:
+            node[0].append((r == z3.sat, cid, cond))
         return r == z3.sat
 
     def model_for(self, cond):
